@@ -5,11 +5,13 @@ HERE = os.path.dirname(os.path.abspath(__file__))
 VERIF = os.path.dirname(HERE)
 ALL = [f"C{i:02d}" for i in range(1, 19)]
 NOTE = ("Trusted: Lean 4.33 kernel; axioms propext/Classical.choice/Quot.sound only (audited with #print axioms each run); "
-        "no sorry/native_decide/bv_decide. Tie to the code, both checked on every run: (T) tools/c2lean.py and tools/c2lean2.py re-translate 39 C "
+        "no sorry/native_decide/bv_decide. Tie to the code, both checked on every run: (T) tools/c2lean.py and tools/c2lean2.py re-translate 58 C "
         "functions from /repo's current source into Lean — loop-free: tagged family, unrolled chained reader, sizing functions, "
-        "zig-zag, group codes, bitstream set/get, tagged in-place add; WITH LOOPS (fuel-recursive definitions, proved to terminate): "
-        "chained-simple encode/length/decode, RLE analyze/encode/decode/run reader/run counter, adaptive sortedness scan — and "
-        "bridge theorems prove them equal to the model for all inputs; (H) for everything else the hand-written "
+        "zig-zag, group codes, bitstream set/get, tagged in-place add, external put-fixed/get (byte views, switch tables); WITH LOOPS "
+        "(fuel-recursive definitions, proved to terminate): chained-simple encode/length/decode, the whole run-length codec, "
+        "external put + in-place add, the varintSplit.h statement macros (via wrappers), delta put/get/encode/decode, adaptive "
+        "sortedness scan — and bridge theorems prove them equal to the model for all inputs (the signed delta entry points and "
+        "the RLE header/GetAt readers are translated; signed delta is not bridged yet); (H) for everything else the hand-written "
         "model = code is established by the differential correspondence only on the operations sampled (boundary-directed + "
         "seeded random), in the sanitised and the pinned -O2 build (thorough: also -O0 and -march=native, all alignments). "
         "Constants, README tables and the list of writable statics are regenerated from /repo on every run (tools/gen.py). "
@@ -51,21 +53,21 @@ CLAIMED = {
          "every bit outside the range unchanged, only overlapping words written; signed helpers; the four instantiations of "
          "the header are exercised exhaustively over (offset mod W, width)",
          "Lean 4 proof via Nat.testBit extensionality + machine-translated Set/Get with bridge theorems (all offsets) + exhaustive (offset,width) correspondence incl. far offsets"),
- "C02": ("Run-length is proved END TO END ON THE TRANSLATED C: the bytes varintRLEEncode stores, handed to varintRLEDecode with the original count, reproduce the array (encoder loop, decoder's nested loops, tagged reader/writer all machine-translated). Round-trip theorems for arrays of every length for EVERY codec: delta (signed/unsigned), zig-zag (also on the translated C), frame-of-reference + random access, run-length with and without header + random access, group + random access, dictionary (both decoders; for exactly the arrays the encoder accepts), Elias gamma/delta (any declared bit count from exact to byte-rounded, any capacity gives the prefix), PFOR at every threshold percentage, BP128 32/64-bit and both delta forms. All codecs are compared with the code on boundary-directed arrays, with round-trip / random-access monitors run on the implementation from exact-size copies",
+ "C02": ("Unsigned delta is proved end to end on the translated encoder and decoder for EVERY array (c_delta_unsigned_roundtrip); the RLE header decoder and random access (GetAt) are bridged as well. Run-length is proved END TO END ON THE TRANSLATED C: the bytes varintRLEEncode stores, handed to varintRLEDecode with the original count, reproduce the array (encoder loop, decoder's nested loops, tagged reader/writer all machine-translated). Round-trip theorems for arrays of every length for EVERY codec: delta (signed/unsigned), zig-zag (also on the translated C), frame-of-reference + random access, run-length with and without header + random access, group + random access, dictionary (both decoders; for exactly the arrays the encoder accepts), Elias gamma/delta (any declared bit count from exact to byte-rounded, any capacity gives the prefix), PFOR at every threshold percentage, BP128 32/64-bit and both delta forms. All codecs are compared with the code on boundary-directed arrays, with round-trip / random-access monitors run on the implementation from exact-size copies",
          "Lean 4 proof by induction over the array (all codecs) + machine-translated RLE encoder/decoder with bridge theorems + differential correspondence with the C codecs"),
- "C03": ("For run-length the statement is about the translated C itself: varintRLESize/Analyze's encodedSize = what varintRLEEncode returns = the number of bytes it stores, all at indices below it, within varintRLEMaxSize. Length-of-output theorems for every encoder: exact predictors (RLE, FOR, group, dictionary), upper bounds (delta, RLE incl. header, Elias, PFOR, BP128 x4, float for every precision/mode, adaptive for every outcome of the selector); the advertised-size FUNCTIONS themselves are translated from the current headers and proved equal to the model's formulas (no size_t wrap below 2^56 elements). Every encoder is run into a buffer of exactly the advertised size followed by a canary",
+ "C03": ("Unsigned delta on the translated C: stores only below the returned length, which is within varintDeltaMaxEncodedSize. For run-length the statement is about the translated C itself: varintRLESize/Analyze's encodedSize = what varintRLEEncode returns = the number of bytes it stores, all at indices below it, within varintRLEMaxSize. Length-of-output theorems for every encoder: exact predictors (RLE, FOR, group, dictionary), upper bounds (delta, RLE incl. header, Elias, PFOR, BP128 x4, float for every precision/mode, adaptive for every outcome of the selector); the advertised-size FUNCTIONS themselves are translated from the current headers and proved equal to the model's formulas (no size_t wrap below 2^56 elements). Every encoder is run into a buffer of exactly the advertised size followed by a canary",
          "Lean 4 proof of size bounds (all encoders) + translated sizing functions and RLE analyze/encode loops + canary at the advertised size"),
  "C13": ("varintRLEDecode (outer run loop + inner fill loop) is machine-translated and proved: for any readable bytes incl. run lengths up to 2^64-1 it stores only at indices below the count it returns, which is <= maxCount (defect D40 found by this proof and repaired). For EVERY byte string each capacity-taking model decoder (FOR, RLE with and without header, group, dictionary DecodeInto, Elias gamma/delta, BP128 x4, adaptive with all six arms) stores at most cap values; on valid encodings a smaller capacity gives the documented failure or the correct prefix. Every decoder is run with capacities 0..n into exactly-sized output blocks with guards",
          "Lean 4 proof over all byte strings (all capacity-taking decoders) + machine-translated RLE decoder with bridge theorem + guard elements and hostile run lengths on the implementation"),
  "C16": ("RLE metadata proved on the translated C: count, runCount = number of maximal runs, encodedSize = bytes stored = return value, for Analyze and Encode. Metadata of the model = real properties of the data: FOR min/max/range/width/size and header accessors, RLE runs (maximal, unique decomposition), group self-measured size and field widths, PFOR analysis facts (min, threshold, width, count, exception records) and header read-back; the harness recomputes ground truth independently for every codec (incl. Elias, BP128, float, adaptive). Known finding D15 (adaptive ReadMeta) is reported as KNOWN-FINDING",
          "Lean 4 proof + independently recomputed ground truth in the harness"),
- "C01": ("Chained-simple (encode loop, length loop, decode loop with early return) is machine-translated and proved for all 2^64 values and every fuel >= 10 (termination). Theorems for all 2^64 values (any trailing bytes) for all nine scalar families incl. fixed-width, quick-macro, reversed and 32-bit forms and the signed helpers. For the tagged family and the hand-unrolled chained reader the statements are ALSO proved about the machine translation of the C source (regenerated on every run): varintTaggedPut64 then varintTaggedGet returns the value, the four lengths agree and lie in 1..9, the stores are exactly bytes 0..n-1; the literal transcription of sqlite3's unrolled reader equals the format-level reader on every byte string. Split/chained-simple/external bodies are tied by the correspondence",
+ "C01": ("External (little-endian: put with its width loop, fixed-width put, get) and the split family (varintSplit.h macros: put/get/length/getlen) are machine-translated too and proved for all 2^64 values (c_external_roundtrip, c_split_roundtrip). Chained-simple (encode loop, length loop, decode loop with early return) is machine-translated and proved for all 2^64 values and every fuel >= 10 (termination). Theorems for all 2^64 values (any trailing bytes) for all nine scalar families incl. fixed-width, quick-macro, reversed and 32-bit forms and the signed helpers. For the tagged family and the hand-unrolled chained reader the statements are ALSO proved about the machine translation of the C source (regenerated on every run): varintTaggedPut64 then varintTaggedGet returns the value, the four lengths agree and lie in 1..9, the stores are exactly bytes 0..n-1; the literal transcription of sqlite3's unrolled reader equals the format-level reader on every byte string. Split/chained-simple/external bodies are tied by the correspondence",
          "Lean 4 proof over executable model + C-to-Lean translation with bridge theorems (tagged, chained reader) + differential correspondence with the C code"),
  "C04": ("Chained-simple bytes on the translated encoder loop = documented LEB128-capped-at-9 format; no writable statics (regenerated). Model encoders proved equal to format specifications written from the documentation (tagged also on the translated C: stored bytes = sqlite4 format for all 2^64 values); length monotonicity and per-length maxima proved against constants and README tables regenerated from /repo; canonicity stated on the decoders (no accepted byte string shorter than the encoder's, same length implies same bytes) for tagged, chained, chained-simple, external and, for every first byte an encoder can produce, the four split families; bytes of the real encoders (incl. Elias streams) compared with the model",
          "Lean 4 proof (model = documented format, canonicity, maxima = regenerated constants) + translated tagged encoder + byte-exact correspondence"),
  "C05": ("lexCmp (memcmp model) of tagged encodings = numeric compare for all pairs (also for the bytes stored by the translated varintTaggedPut64), prefix-freeness, tuples of any arity; real memcmp compared with the model on boundary/one-byte-different/random pairs and tuples",
          "Lean 4 proof (big-endian key argument, also on the translated C) + correspondence with real memcmp"),
- "C12": ("varintTaggedAdd/AddNoGrow/AddGrow are machine-translated (slot read, __builtin_saddll_overflow, in-place re-encode) and the whole property is proved on the translated C for every slot and every int64 amount (c_tagged_add). Theorems over all (stored value, slot width, amount) for tagged and external add: overflow untouched, exact int64 sum, "
+ "C12": ("The external in-place add (varintExternalAdd_/NoGrow/Grow) is machine-translated and bridged too (c_ext_add). varintTaggedAdd/AddNoGrow/AddGrow are machine-translated (slot read, __builtin_saddll_overflow, in-place re-encode) and the whole property is proved on the translated C for every slot and every int64 amount (c_tagged_add). Theorems over all (stored value, slot width, amount) for tagged and external add: overflow untouched, exact int64 sum, "
          "no-grow never writes beyond the slot, grow bounded by 9/8; harness replays boundary-crossing triples with guard bytes",
          "Lean 4 proof over the add model + machine-translated tagged add with bridge theorem + differential correspondence with guard bytes"),
 }
